@@ -17,6 +17,7 @@ import (
 	"os"
 	"os/exec"
 	"runtime"
+	"runtime/pprof"
 	"sort"
 	"strconv"
 	"strings"
@@ -272,6 +273,11 @@ func main() {
 		}
 	case "worker":
 		runtime.GOMAXPROCS(1)
+		if pf := os.Getenv("VERIF_PROF"); pf != "" {
+			f, _ := os.Create(pf)
+			pprof.StartCPUProfile(f)
+			defer pprof.StopCPUProfile()
+		}
 		p := properties[os.Args[2]]
 		tier := os.Args[3]
 		scs := p.Scenarios(tier)
@@ -425,7 +431,7 @@ func cmdRun(prop string) int {
 		"explanation":                   "stateless DFS over every schedule / select choice / cancel and timer instant of each scenario on the instrumented repository sources; states = distinct happens-before state keys, transitions = scheduler steps",
 	}
 	// the bounded-exhaustive content part of the same property (engine E2), if it ran
-	if b, err := os.ReadFile("/verif/evidence/parts/" + prop + ".e2.json"); err == nil {
+	if b, err := os.ReadFile(vlib.EvidenceDir() + "/parts/" + prop + ".e2.json"); err == nil {
 		var part map[string]interface{}
 		if json.Unmarshal(b, &part) == nil {
 			cov["e2_part"] = part["coverage"]
